@@ -39,8 +39,12 @@ def wild(draw):
     feats = []
     for (_n, p), k in zip(case["params"], case["kinds"]):
         if draw(st.integers(0, 3)) == 0:
-            p["doc"] = (p.get("doc", "") + " " + draw(st.sampled_from(TRIGGER_PHRASES)) + " " + draw(st.sampled_from(WORDS))).strip()
+            ph = draw(st.sampled_from(TRIGGER_PHRASES + ["defaults to 10", "defaults to 'abc'", "defaults to True", "path"]))
+            base = (p.get("doc") or "alpha").rstrip(".")
+            shape = draw(st.sampled_from(["mid", "end-comma", "own-sentence", "start"]))
+            p["doc"] = {"mid": "%s %s %s" % (base, ph, draw(st.sampled_from(WORDS))), "end-comma": "%s, %s" % (base, ph), "own-sentence": "%s. %s." % (base, ph[0].upper() + ph[1:]), "start": "%s %s" % (ph, base)}[shape]
             feats.append("has-trigger")
+            feats.append("trigger-shape:" + shape)
         if k == "str" and draw(st.integers(0, 3)) == 0:
             p["default"] = draw(st.sampled_from(HOSTILE))
             feats.append("hostile-default")
@@ -127,16 +131,35 @@ PLAIN = __import__("re").compile(r"^[A-Za-z][A-Za-z0-9_/~-]{0,10}$")
 SQL_OK = {"int", "float", "str", "bool", "dict"}
 
 
-def param_taints(p):
-    """relaxable classes of ONE parameter, decided on the input alone -> {finding id}"""
+DEFAULT_FRAGMENT = __import__("re").compile(r"[Dd]efaults?(?::| to| is)\s+\S+")
+TYPE_TRIGGERS = ("number", "whether", "list of", "string or", "path", "true if", "if true", "optional", "dictionary of", "int64", "one of", "a str", "int or float", "`np` or `tf`")
+DOC_FORMATS = ("doc_rest", "doc_google", "doc_numpydoc", "class", "pydantic", "function", "funcdoc", "argparse")
+
+
+def param_taints(p, fmt=None):
+    """relaxable classes of ONE parameter IN ONE FORMAT, decided on the input alone -> {finding id}.
+    P47 is narrow (measured on the unchanged tree, see DESIGN 8.7): a description is only unstable when
+      U1 a `default(s) to|is|: X` fragment stands at the very start or is followed by further words of the same
+         sentence (the scanner then takes `X word` as the default) - formats that carry the description as prose;
+      U2 a type-hint trigger word meets an EXPLICIT default (the prose-derived type re-types the default one round
+         late; with a negative number the function emitters then write un-parseable code);
+      U3 `dictionary of` - class / pydantic (the probe of the guessed type raises on the second round).
+    Default fragments at the end of a sentence / after a comma and trigger words without a default are STRICT."""
     import re
 
     t = set()
     doc = p.get("doc") or ""
-    if is_open("P47") and (re.search(r"default", doc, re.I) or any(ph.lower() in doc.lower() for ph in TRIGGER_PHRASES)):
-        t.add("P47")  # prose-derived type / default competes with the declared one
+    low = doc.lower()
+    if is_open("P47") and fmt in DOC_FORMATS or (is_open("P47") and fmt is None):
+        m = DEFAULT_FRAGMENT.search(doc)
+        if m and (m.start() == 0 or re.match(r"\s+\w", doc[m.end():])):
+            t.add("P47")
+        if any(tr in low for tr in TYPE_TRIGGERS) and "default" in p:
+            t.add("P47")
+        if "dictionary of" in low and fmt in (None, "class", "pydantic"):
+            t.add("P47")
     d = p.get("default")
-    if is_open("P12") and isinstance(d, str) and d != NoneStr and not d.startswith("(") and not PLAIN.match(d):
+    if is_open("P12") and isinstance(d, str) and d != NoneStr and not d.startswith("(") and not gen_ir.is_plain_str(d):
         t.add("P12")  # hostile string default ('' / dots / quotes / leading blank / 'None' / digits ...)
     return t
 
@@ -159,9 +182,9 @@ def oracle(case):
     r = Result()
     x = gen_ir.to_ir(case)
     normalised = False
-    taints = {n: param_taints(p) for n, p in case["params"]}
-    any_taint = set().union(*taints.values()) if taints else set()
     for fmt in case.get("formats") or FORMATS:
+        taints = {n: param_taints(p, fmt) for n, p in case["params"]}
+        any_taint = set().union(*taints.values()) if taints else set()
         if not applicable(fmt, case):
             r.label("n/a:" + fmt)
             continue
@@ -204,8 +227,8 @@ def oracle(case):
                         t2[n] = set(taints[n])
                         if spill and "default" not in p:
                             t2[n].add("P47")
-                        if "P47" in taints[n] and re.search(r"default", p.get("doc") or "", re.I):
-                            spill = True
+                        if DEFAULT_FRAGMENT.search(p.get("doc") or "") and "default" not in p:
+                            spill = True  # (stable or not) the fragment gives this parameter a default on round 1
                 bad = _uncovered(r, fmt, case, t2, a, b)
                 if bad:
                     r.fail("not-fixpoint[%s]%s" % (fmt, bad[0]), "[%s] round %d: %s" % (fmt, rnd, bad[1]))
@@ -213,7 +236,7 @@ def oracle(case):
             cur = nxt
     r.label(*case["feats"])
     r.label(*gen_ir.labels_of(case))
-    r.label("tainted-params=%d" % sum(bool(v) for v in taints.values()))
+    r.label("tainted-params=%d" % sum(bool(param_taints(p)) for _n, p in case["params"]))
     r.nontrivial = normalised
     return r
 
